@@ -115,7 +115,15 @@ def media_spec(draw, idx, ice_lite):
         m["max_message_size"] = draw(st.one_of(st.none(), st.sampled_from([0, 65536, 262144, 2**31])))
         return m
     pts = draw(st.lists(PT, min_size=1, max_size=5, unique=True))
-    m.update(profile=draw(st.sampled_from(["UDP/TLS/RTP/SAVPF", "RTP/SAVPF", "RTP/AVP"])), fmt=pts,
+    fmt = list(pts)
+    if draw(st.integers(0, 3)) == 0:
+        # the m= line is its own field: it may list the payload types in another order than the rtpmap lines, and static
+        # payload types that have no rtpmap line at all
+        fmt = list(draw(st.permutations(fmt)))
+        for extra in draw(st.lists(st.sampled_from([0, 8, 9, 13, 34]), max_size=2, unique=True)):
+            if extra not in fmt:
+                fmt.insert(draw(st.integers(0, len(fmt))), extra)
+    m.update(profile=draw(st.sampled_from(["UDP/TLS/RTP/SAVPF", "RTP/SAVPF", "RTP/AVP"])), fmt=fmt,
              codecs=[draw(codec_spec(kind, pt)) for pt in pts],
              direction=draw(st.one_of(st.none(), st.sampled_from(SDP.DIRECTIONS))),
              msid=draw(st.one_of(st.none(), st.tuples(name_token, name_token).map(" ".join), name_token)),
